@@ -115,7 +115,7 @@ DTYPES = [("f64", "f64"), ("f32", "f64"), ("f64", "f32"), ("f32", "f32")]
 ARCHS = ["grid", "cvt", "sba", "prox"]
 STATES = ["empty", "one", "many", "cleared"]
 BOUNDS_CLIP = ["none", "box", "onesided", "tight", "nondyadic", "excl"]
-BOUNDS_ES = ["none", "box", "onesided", "tight", "nondyadic"]
+BOUNDS_ES = ["none", "box", "onesided", "tight", "nondyadic", "narrow"]
 
 
 # --------------------------------------------------------------------------
@@ -220,6 +220,9 @@ def bounds_layout(name, dim):
         return [cyc[i % len(cyc)] for i in range(dim)], x0
     if name == "tight":
         return [(-1 / 64, 1 / 64)] * dim, x0
+    if name == "narrow":
+        # a slab so thin relative to sigma that a sample survives hundreds of resampling passes (ES kinds only)
+        return [(-1 / 256, 1 / 256)] + [(-4.0, 4.0)] * (dim - 1), x0
     if name == "nondyadic":
         return [(-0.3, 0.7)] * dim, x0
     if name == "excl":  # the box does not contain x0 (clipping emitters only)
@@ -828,7 +831,12 @@ def make_gen(points, n_iter_lo, n_iter_hi):
                 case["sigma_g"] = rng.choice(["1/4", "1", "8"])
                 case["norm"] = rng.random() < 0.5
         elif kind in ES_KINDS:
+            if b == "narrow" and kind == "pycma_es":
+                b = "tight"     # pycma handles its bounds itself (no resampling loop of ours to exercise)
+                case["bounds"] = b
             case["sigma"] = "1/128" if b == "tight" else rng.choice(["1/4", "1/2", "3/10"])
+            if b == "narrow":
+                case["sigma"] = rng.choice(["1/2", "1"])
             if kind == "lm_ma_es":
                 batch = rng.randint(1, dim)
             if kind == "openai_es":
@@ -851,7 +859,12 @@ def make_gen(points, n_iter_lo, n_iter_hi):
             case["ranker"] = rng.choice(["2imp", "imp", "obj"])
         case["batch"] = batch
         tag = "/".join(str(case[k]) for k in ("kind", "sd", "md", "bounds", "arch", "state", "dim", "batch", "seed"))
-        case["ops"] = [{"op": "cfg", "tag": tag}] + gen_ops(rng, s, dim, rng.randint(n_iter_lo, n_iter_hi), kind)
+        n_iter = rng.randint(n_iter_lo, n_iter_hi)
+        if case["bounds"] == "narrow":
+            # the mean of the CMA family is a convex combination of in-bounds parents and stays in the slab; the
+            # gradient step of OpenAI-ES may leave it, after which ask() legitimately takes arbitrarily long
+            n_iter = 1 if kind == "openai_es" else min(n_iter, 3)
+        case["ops"] = [{"op": "cfg", "tag": tag}] + gen_ops(rng, s, dim, n_iter, kind)
         return case
 
     return gen
